@@ -12,6 +12,9 @@ P = {
  "C01": ("All names with accidental strings up to length 8 (thorough 12) in every order are enumerated and each notes.* result is compared with own letter/semitone arithmetic; pairs, ints and malformed strings likewise; longer inputs are sampled with Hypothesis. Exhaustive below the bound, sampled above.",
          "Reference arithmetic in vlib/ref/theory.py; empty string excluded.",
          "bounded-exhaustive enumeration + Hypothesis PBT vs reference model"),
+ "C13": ("Every operation history up to depth 4 (thorough 5) over {place v, rest v, +, remove-last} for a 10-value sub-vocabulary in 6-14 meters, every single-value fill to exact capacity, constructed overflows by 1-5 vocabulary quanta, and seeded random 60-step histories over all seven operations are executed on a real Bar and compared after every step with an exact Fraction model; meter acceptance is enumerated over integer/float/non-finite units.",
+         "Model in vlib/ref/barmodel.py; values handed over as ints or correctly rounded floats of the vocabulary rationals; float clauses at 1e-9.",
+         "bounded-exhaustive history enumeration + model-based Hypothesis histories vs exact-rational model"),
 }
 DEFAULT_NOTE = "Oracle = independent reference model under /verif/vlib/ref; bounds per DESIGN.md section 4."
 
